@@ -1,4 +1,5 @@
 mod alloc;
+mod bufview;
 mod case;
 mod p_c01;
 mod p_c02;
